@@ -47,6 +47,7 @@ struct Registry
 
     void on_construct(void* p, size_t n, int32_t value, const char* how)
     {
+        HarnessScope hs;
         if (!enabled) return;
         ++constructed;
         const auto a = reinterpret_cast<uintptr_t>(p);
@@ -65,6 +66,7 @@ struct Registry
     // returns the entry if the object at p is a live constructed object, reports otherwise
     RegEntry* check(const void* p, size_t n, const char* what)
     {
+        HarnessScope hs;
         if (!enabled) return nullptr;
         const auto a = reinterpret_cast<uintptr_t>(p);
         auto it = live.find(a);
@@ -78,6 +80,7 @@ struct Registry
 
     void on_destroy(void* p, size_t n)
     {
+        HarnessScope hs;
         if (!enabled) return;
         const auto a = reinterpret_cast<uintptr_t>(p);
         auto it = live.find(a);
